@@ -386,6 +386,8 @@ H("conn_update_keys_native", ["C04"], "replay-only", "connection::update_keys_na
   [("remote", "bool")], 4, [], ["Connection::update_keys", "Connection::decrypt_packet", "packet_crypto::decrypt_packet_body"], "native replay body of E2 queries e2_update_keys / e2_decrypt_packet_key_update / e2_decrypt_packet_body_keys / e2_decrypt_prev_filter")
 H("dgram_api_native", ["C16", "C13"], "replay-only", "connection::dgram_api_native",
   [("peer", "u32"), ("len_", "u16"), ("drop", "bool")], 4, [], ["Datagrams::max_size", "Datagrams::send"], "native replay body of E2 queries e2_datagrams_max_size / e2_datagrams_send")
+H("endpoint_retry_token_native", ["C14"], "replay-only", "endpoint::retry_token_native",
+  [("x", "u8")], 4, [], ["Endpoint::retry", "IncomingToken::from_header"], "native replay body of E2 query e2_endpoint_retry_token")
 H("conn_peer_params_cid_auth_native", ["C14", "C04"], "replay-only", "connection::peer_params_cid_auth_native",
   [("server", "bool"), ("which", "u8")], 4, [], ["Connection::handle_peer_params"], "native replay body of E2 query e2_peer_params_cid_auth")
 
